@@ -1,37 +1,8 @@
-import Prom.Model.Fallible
-import Prom.Lemmas.Desc
-import Prom.Lemmas.Histogram
-import Prom.Gen.Consts
-/-
-C17 — Fallible APIs report bad input as Err and do not panic.
-For every partial operation on the fallible paths the failure branch is proved unreachable,
-for all arguments.
--/
+import Prom.Lemmas.C17Aux
+
 namespace Prom.C17
 open Prom
-
 /-! ### bucket validation -/
-
-theorem bucketLoopP_no_panic (bs : List UInt64) (lenM1 : Nat) (hl : lenM1 + 1 = bs.length) :
-    ∀ (rest : List UInt64) (i : Nat), i + rest.length = bs.length →
-      (bucketLoopP bs lenM1 rest i).isPanic = false := by
-  intro rest
-  induction rest with
-  | nil => intro i _; rfl
-  | cons ub r ih =>
-    intro i hi
-    unfold bucketLoopP
-    split
-    · rfl
-    · split
-      · rename_i hlt
-        have hidx : i + 1 < bs.length := by omega
-        have : bs[i + 1]? = some bs[i + 1] := List.getElem?_eq_getElem hidx
-        simp only [idxP, this, Outcome.unwrap, Outcome.bind]
-        split
-        · rfl
-        · exact ih (i + 1) (by simp at hi; omega)
-      · exact ih (i + 1) (by simp at hi; omega)
 
 /-- **no_panic (buckets)** — `check_and_adjust_buckets` never panics, for any bucket list, provided
     the default list is non-empty (`Gen/Consts`: 11 elements). -/
@@ -62,23 +33,6 @@ theorem checkAndAdjustP_no_panic (defaults bs : List UInt64) (hd : defaults ≠ 
 
 /-! ### label pairs -/
 
-theorem pairLoopP_no_panic (vals : List Str) : ∀ (names : List Str) (i : Nat),
-    i + names.length ≤ vals.length → (pairLoopP vals names i).isPanic = false := by
-  intro names
-  induction names with
-  | nil => intro i _; rfl
-  | cons n r ih =>
-    intro i hi
-    unfold pairLoopP
-    have hidx : i < vals.length := by simp at hi; omega
-    have : vals[i]? = some vals[i] := List.getElem?_eq_getElem hidx
-    simp only [idxP, this, Outcome.unwrap, Outcome.bind]
-    have := ih (i + 1) (by simp at hi; omega)
-    cases hp : pairLoopP vals r (i + 1) with
-    | panic => rw [hp] at this; simp [Outcome.isPanic] at this
-    | err => rfl
-    | ok t => rfl
-
 /-- **no_panic (make_label_pairs)** — the indexing `label_values[i]` is always in range: a wrong
     number of label values is an `Err`, never a panic. -/
 theorem makeLabelPairsP_no_panic (d : Desc) (vals : List Str) : (makeLabelPairsP d vals).isPanic = false := by
@@ -104,29 +58,6 @@ theorem makeLabelPairsP_err_iff_card (d : Desc) (vals : List Str) (h : d.varLabe
 
 /-! ### `Desc::new`: `const_labels.get(name).cloned().unwrap()` -/
 
-theorem lookupAllP_no_panic (m : List (Str × Str)) : ∀ (ks : List Str), (∀ k ∈ ks, k ∈ m.map (·.1)) →
-    (lookupAllP m ks).isPanic = false := by
-  intro ks
-  induction ks with
-  | nil => intro _; rfl
-  | cons k r ih =>
-    intro h
-    unfold lookupAllP
-    have hk : k ∈ m.map (·.1) := h k (by simp)
-    obtain ⟨p, hp, hpk⟩ := List.mem_map.1 hk
-    have hfind : (m.find? (·.1 == k)).isSome = true := by
-      rw [List.find?_isSome]
-      exact ⟨p, hp, by simp [hpk]⟩
-    cases hf : m.find? (·.1 == k) with
-    | none => rw [hf] at hfind; simp at hfind
-    | some q =>
-      simp only [Option.map_some, Outcome.unwrap, Outcome.bind]
-      have := ih (fun x hx => h x (by simp [hx]))
-      cases hl : lookupAllP m r with
-      | panic => rw [hl] at this; simp [Outcome.isPanic] at this
-      | err => rfl
-      | ok t => rfl
-
 /-- **no_panic (Desc::new)** — the names collected by the first loop are keys of the const-label
     map, so the `unwrap` on the value lookup cannot fail -/
 theorem desc_value_lookup_no_panic (cl : List (Str × Str)) (cn : List Str) (h : constNames cl [] = some cn) :
@@ -137,9 +68,6 @@ theorem desc_value_lookup_no_panic (cl : List (Str × Str)) (cn : List Str) (h :
   simpa using this
 
 /-! ### `escape_string`: the slice index is a char boundary -/
-
-theorem isCharBoundary_zero (cs : List Char) : isCharBoundary cs 0 = true := by
-  cases cs <;> simp [isCharBoundary]
 
 /-- the first special byte (all special bytes are ASCII) of a UTF-8 string sits at a character
     boundary, so `&v[0..first]` and `&v[first..]` never panic — whatever multi-byte characters
